@@ -12,17 +12,86 @@ SETUPS = {
 }
 
 
+def query_pairs(ctx, edges_file, cfg, out, stride):
+    """The statement's own shape: ask q on facts s1, change the facts to s2 (shortest sequence of asserts/changes/removes), ask q
+    again - for every ordered pair of fact stores and every query of the spec's alphabet (every `stride`-th combination)."""
+    import collections
+    import json
+    init = None
+    step = {}          # state -> {label_json: target}
+    queries = {}
+    for ln in open(edges_file):
+        e = json.loads(ln)
+        if "init" in e:
+            init = e["init"][0]
+            continue
+        if e["l"]["op"] == "setfact":
+            step.setdefault(e["s"], []).append((e["l"], e["t"]))
+        elif e["l"]["op"] == "pquery":
+            queries[json.dumps(e["l"], sort_keys=True)] = e["l"]
+    states = sorted(set(step) | {t for v in step.values() for _, t in v})
+
+    def paths_from(s):
+        par = {s: None}
+        dq = collections.deque([s])
+        while dq:
+            u = dq.popleft()
+            for l, t in step.get(u, []):
+                if t not in par:
+                    par[t] = (u, l)
+                    dq.append(t)
+        res = {}
+        for t in par:
+            p, cur = [], t
+            while par[cur] is not None:
+                u, l = par[cur]
+                p.append(l)
+                cur = u
+            res[t] = list(reversed(p))
+        return res
+
+    allp = {s: paths_from(s) for s in states}
+    qs = [queries[k] for k in sorted(queries)]
+    n = 0
+    k = 0
+    with open(out, "w") as o:
+        o.write(json.dumps({"cfg": cfg}) + "\n")
+        for s1 in states:
+            for s2 in states:
+                if s2 not in allp[s1] or s1 not in allp[init]:
+                    continue
+                for qu in qs:
+                    k += 1
+                    if k % stride:
+                        continue
+                    steps = [{"l": l, "o": {"ok": True}} for l in allp[init][s1]]
+                    steps.append({"l": qu, "o": {"agrees": True}})
+                    steps += [{"l": l, "o": {"ok": True}} for l in allp[s1][s2]]
+                    steps.append({"l": qu, "o": {"agrees": True}})
+                    o.write(json.dumps({"steps": steps}, separators=(",", ":")) + "\n")
+                    n += 1
+    return n
+
+
 def run(ctx):
     q = ctx.quick()
     for i in (1, 2, 3):
         cfg = {"setup": SETUPS[i]}
-        c.graph_leg(ctx, "Backward.tla", "backward", "Gen_Backward_c11_%d.cfg" % i, cfg,
-                    2000 if q else 30000, 7, 3 if q else 4)
+        gen = "Gen_Backward_c11_%d.cfg" % i
+        edges = ctx.path(gen + ".edges")
+        g = c.tlc_gen(ctx, "Backward.tla", gen, edges, cfgobj=cfg, timeout=900)
+        r = c.replay(ctx, "backward", edges, walks=1500 if q else 30000, walklen=7, allhist=2 if q else 3)
+        tr = ctx.path("pairs_%d.traces" % i)
+        n = query_pairs(ctx, edges, cfg, tr, 1)
+        r2 = c.replay_traces(ctx, "backward", tr)
+        c.log("  program %d: %d edges / %d states; %d graph behaviours (%d failures); %d query-pair behaviours (%d failures)" % (
+            i, g["edges"], g["states"], r["behaviours"], r["failures_n"], n, r2["failures_n"]))
     ctx.cov["exhaustive"] = True
     ctx.cov["rule"] = ("for three fixed programs (chain, conjunction with wrong-value head, disjunction with a cycle) the complete graph of "
-                       "fact stores over 3 boolean fields x {true,false,absent} with every assert/change/remove and every query (6 goals x 2 "
-                       "depths x DFS/BFS) is dumped by TLC; every transition, all histories to the all-histories depth and seeded walks to 7 "
-                       "steps are run on ONE BackwardEngine (memoisation on) and ONE caller fact store; each query's verdict is compared with a "
+                       "fact stores over 3 boolean fields x {true,false,absent} with every assert/change/remove and every query (6 goals, plain and "
+                       "negated, DFS/BFS, max_solutions 1 and 3) is dumped by TLC; every transition, short histories, seeded walks to 7 steps, "
+                       "and - the statement's own shape - for every ordered pair of fact stores (s1, s2) and every query q the history "
+                       "`reach s1, ask q, change facts to s2, ask q` are run on ONE BackwardEngine (memoisation on) and ONE caller fact store; each query's verdict is compared with a "
                        "freshly built engine run on a copy of exactly the facts passed in")
     ctx.assumptions += ["the caller's fact store persists across queries (facts derived by an earlier successful query stay in it); the fresh "
                         "engine gets a copy of that same store, as the statement prescribes",
